@@ -81,7 +81,7 @@ impl Skeleton {
 
         let sklb = SKLB::read(&mut cursor).ok()?;
 
-        let root = HavokBinaryTagFileReader::read(&sklb.raw_data);
+        let root = HavokBinaryTagFileReader::read(&sklb.raw_data)?;
         let raw_animation_container = root.find_object_by_type("hkaAnimationContainer");
         let animation_container = HavokAnimationContainer::new(raw_animation_container);
 
